@@ -7,6 +7,7 @@ ROOT = "/verif"
 MX = "/tmp/mx_%d" % os.getpid()
 EXTRA = {  # further properties whose checks are also expected to notice (mechanism shared)
     "C13_B": ["C14"], "C14_B": ["C13"], "C16_B": ["C13"], "C05_B": ["C02"], "C01_B": ["C02", "C05"],
+    "C13_D": ["C17"], "C02_D": ["C14"], "C14_D": ["C02"],
 }
 def sh(cmd, **kw):
     return subprocess.run(cmd, shell=True, stdout=subprocess.PIPE, stderr=subprocess.STDOUT, text=True, **kw)
@@ -33,7 +34,9 @@ def main():
             t0 = time.time()
             r = subprocess.run(["python3", ROOT + "/tools/check", p, "--tier", "quick"], env=env, stdout=subprocess.PIPE, stderr=subprocess.STDOUT, text=True)
             viol = [l for l in r.stdout.splitlines() if l.startswith("VIOLATION") or l.startswith("  condition") or l.startswith("TOOL-ERROR")]
-            out[p] = {"exit": r.returncode, "lines": viol[:4], "wall_s": round(time.time() - t0)}
+            nonconf = [l for l in r.stdout.splitlines() if l.startswith("NONCONFORMANCE")]
+            out[p] = {"exit": r.returncode, "lines": viol[:4], "wall_s": round(time.time() - t0),
+                      "nonconformance": [l[:260] for l in nonconf[:3]]}
             print(name, p, "exit", r.returncode, (viol[1].strip() if len(viol) > 1 else (viol[0] if viol else ""))[:160], flush=True)
         sh("git -C %s/repo checkout -- ." % MX)
         meta["detected_by"] = out
